@@ -196,7 +196,8 @@ namespace c16
         }
         int tot = 0; for(int x : ws) tot += x; int r = int(t.raw() % std::uint32_t(tot)); size_t sel = 0; while(r >= ws[sel]) { r -= ws[sel]; ++sel; }
         kind = kinds[sel];
-        if(kind == BStrainRate && dim == 3 && c.excl("c16-strainrate-3x9")) sym_stress = true; else sym_stress = t.flag(1, 2);
+        sym_stress = t.flag(1, 2);
+        if(kind == BStrainRate && dim == 3 && !sym_stress && c.excl("c16-strainrate-3x9")) sym_stress = true;
       }
       { static const double as[] = {1.0, -1.0, 2.0, 0.5}; int ak = t.pick({4, 1, 1, 1, 2}); alpha = ak < 4 ? DT(as[ak]) : DT(t.real_nz(2)); c.label(ak < 4 ? "alpha:simple" : "alpha:generated"); }
       const bool vv = kind <= BDuDv;
